@@ -358,8 +358,14 @@ func (e *Env) Apply(op Op) {
 	e.Step++
 	e.Trace = append(e.Trace, op)
 	e.St.Inc("op." + op.Kind)
-	if op.Kind != "publish" && op.Kind != "backup" {
-		e.bkDir = "" // only publish-only gaps allow re-using a backup directory
+	switch op.Kind {
+	case "publish", "backup", "reopen", "gc", "sync", "ro":
+		// the source "has only been appended to": sessions, GC and Sync do not take anything away
+	default:
+		e.bkDir = "" // deletes, trims, compactions, migrations, repairs: the directory of the last backup is not reused
+	}
+	if op.Kind == "reopen" && op.Opts != nil && op.Opts.Eager {
+		e.bkDir = "" // an eager migration rewrites the segment files
 	}
 	switch op.Kind {
 	case "publish":
